@@ -25,6 +25,10 @@ def parse_cvc5_model(text):
             out[name] = val == "true"
         elif sort == "String":
             out[name] = val[1:-1].replace('""', '"') if val.startswith('"') else val
+        elif sort.startswith("(_ BitVec") and re.fullmatch(r"#[xb][0-9a-fA-F]+", val):
+            w = int(sort.split()[-1].rstrip(")"))
+            v = int(val[2:], 16 if val[1] == "x" else 2)
+            out[name] = v - (1 << w) if v >> (w - 1) else v
         else:
             out[name] = val[:300]
     return out
